@@ -504,6 +504,10 @@ class Gen:
         if it['body_open'] < 0:
             raise LostAnchor('function has no body: ' + sel)
         fnname = sel.replace('fn ', '')
+        if fnname == 'run':
+            # free functions all called `run`: name them after their module
+            stem = os.path.basename(rel)[:-3]
+            fnname = '%s::run' % (os.path.basename(os.path.dirname(rel)) if stem == 'mod' else stem)
         if ' for ' in sel:
             # trait impl method: name it after the module directory and the implementing type
             ty, meth = sel.split(' for ', 1)[1].rsplit('::', 1)
@@ -648,8 +652,15 @@ class Gen:
             body_text = text[bo:bc]
             idx = -1
             start = 0
+            endidx = -1
             for _ in range(a['k']):
-                idx = body_text.find(a['lit'], start)
+                if '\\N' in a['lit']:
+                    # multi-line anchor: \N stands for a line break with any indentation
+                    mo = re.compile(r'[ \t]*\n\s*'.join(re.escape(x) for x in a['lit'].split('\\N'))).search(body_text, start)
+                    idx, endidx = (mo.start(), mo.end() - 1) if mo else (-1, -1)
+                else:
+                    idx = body_text.find(a['lit'], start)
+                    endidx = idx
                 if idx < 0:
                     if a.get('optional'):
                         break
@@ -663,7 +674,7 @@ class Gen:
                 body = self.clause_lines(fnname, 'ghost', a['text'], props)
                 eds.append((p, p, '\n'.join(body) + '\n', 'A4', ('ann', fnname, 'ghost@' + a['lit'], self._last_tls + [''])))
             else:
-                p = line_end(text, pos)
+                p = line_end(text, bo + endidx)
                 body = self.clause_lines(fnname, 'ghost', a['text'], props)
                 eds.append((p, p, '\n' + '\n'.join(body), 'A4', ('ann', fnname, 'ghost@' + a['lit'], [''] + self._last_tls)))
         first_out = len(self.out) - (len(spec.get('header', '').split('\n')) + 1 if closure_mode else 0)
